@@ -37,7 +37,7 @@
 (*                      compilations in one thread) cycling through a      *)
 (*                      pattern of programs: state that ACCUMULATES        *)
 (*   DiskProj(i), Spellings   projects on disk that import one module both *)
-(*                      relative and rooted, compiled under 9 spellings    *)
+(*                      relative and rooted, compiled under 10 spellings    *)
 (*                      of the main file / working directories             *)
 (*   SeedCase(i)        declarations with EQUAL-BUT-NOT-IDENTICAL keys     *)
 (*                      (members declared 2-3 times), compiled under       *)
@@ -147,7 +147,7 @@ ProgTable == <<
     Pr("typ-brace-2s",  2, 2, "helper", "-",     "type",    "brace", 2, FALSE, TRUE),
     Pr("imp-missing-2", 2, 0, "main",   "-",     "import",  "-",     0, FALSE, FALSE),
     Pr("n-ok-1",        1, 0, "main",   "-",     "ok",      "-",     0, TRUE,  FALSE),
-    Pr("n-ok-deep-2",   2, 0, "helper", "-",     "ok",      "mixed", 6, TRUE,  FALSE),
+    Pr("n-ok-deep-2",   2, 0, "helper", "-",     "ok",      "mixed", 6, TRUE,  TRUE),
     Pr("n-syn-paren-1", 1, 0, "main",   "-",     "syntax",  "paren", 1, TRUE,  FALSE),
     Pr("n-syn-list-3",  1, 0, "main",   "-",     "syntax",  "list",  3, TRUE,  FALSE),
     Pr("n-syn-brace-2", 1, 0, "main",   "-",     "syntax",  "brace", 2, TRUE,  FALSE),
@@ -203,7 +203,8 @@ Spellings == <<
     [name |-> "parent-dotdot", cwd |-> "$S",   arg |-> "proj/w/../main.sy"],
     [name |-> "abs",           cwd |-> "/",    arg |-> "$P/main.sy"],
     [name |-> "abs-inside",    cwd |-> "$P",   arg |-> "$P/main.sy"],
-    [name |-> "abs-dotdot",    cwd |-> "$S",   arg |-> "$P/w/../main.sy"] >>
+    [name |-> "abs-dotdot",    cwd |-> "$S",   arg |-> "$P/w/../main.sy"],
+    [name |-> "double-slash",  cwd |-> "$S",   arg |-> "proj//main.sy"] >>
 NSpell == Len(Spellings)
 
 (*  shape    how the shared module shared.sy (mutable state) of the project root is imported:                  *)
@@ -223,7 +224,7 @@ DiskProj(i) ==
 
 (* UNIVERSE 5: equal-but-not-identical keys.  A declaration with n distinct members in which member d is      *)
 (* written m times; slots = the members in source order.                                                      *)
-SeedFams == <<"dup-blob-field", "dup-enum-variant", "dup-import", "dup-param", "dup-case-arm", "dup-lit-field">>
+SeedFams == <<"dup-blob-field", "dup-enum-variant", "dup-import", "dup-param", "dup-case-arm", "dup-lit-field", "dup-def">>
 NSF == Len(SeedFams)
 NSeedCases == NSF * 4 * 2 * 3 * 3 * 2
 MinSeeds == 200
@@ -257,11 +258,12 @@ ContextUniverseWellFormed ==
           /\ p.site = "helper" => p.files >= 2
           /\ (p.err = "collide") <=> (p.collide # "-")
           /\ p.err \in {"syntax", "resolve", "type"} => (p.bracket # "-" /\ p.depth >= 1)
-          /\ p.nostd => (p.stdlibs = 0 /\ p.collide = "-" /\ ~p.warm)
+          /\ p.nostd => (p.stdlibs = 0 /\ p.collide = "-")
     /\ NW >= 8
     \* warm-ups: one, two and three files; with and without std imports; accepted, rejected, syntax errors at >= 3 depths
     /\ {ProgTable[WarmIds[k]].files : k \in 1..NW} = 1..3
     /\ {ProgTable[WarmIds[k]].stdlibs > 0 : k \in 1..NW} = {TRUE, FALSE}
+    /\ {ProgTable[WarmIds[k]].nostd : k \in 1..NW} = {TRUE, FALSE}
     /\ {"ok", "collide", "syntax", "resolve", "type"} \subseteq {ProgTable[WarmIds[k]].err : k \in 1..NW}
     /\ Cardinality({ProgTable[WarmIds[k]].depth : k \in {x \in 1..NW : ProgTable[WarmIds[x]].err = "syntax"}}) >= 3
     \* targets with a name collision against the preamble exist for every number of files, in main and in a helper
